@@ -25,7 +25,7 @@ for p in CLAIMED:
 m = {
     "version": 1,
     "setup_cmd": "./setup.sh",
-    "hooks": {"guard": "verif", "enable": "go build/test -tags verif (the simulator module /verif/sim replaces the engine module with /repo)",
+    "hooks": {"guard": "verif", "enable": "go build/test -tags verif (the simulator module /verif/sim replaces the engine module with a scratch copy of /repo's working tree, made and removed by ./check at build time, into which sim/cmd/autoyield has inserted further verifhook.Yield calls at every synchronisation operation; /repo itself only carries the hand-placed hooks of the commits below)",
               "baseline_off_cmd": "cd /repo && go test -mod=mod -vet=off -count=1 -timeout 25m ./...",
               "source_commits": hooks, "add_only": True},
     "engines": [{"name": "verifsim", "path": "sim/", "serves_properties": [c["property_id"] for c in checks],
